@@ -46,6 +46,7 @@ Record node := Node {
   n_box : bool;             (* static: a Pile parent uses ('given', n_ht), else ('pack', None) *)
   n_ht : Z;
   n_wt : Z;                 (* static: > 0: a box-mode Pile parent uses ('weight', n_wt) *)
+  n_deco : Z;               (* static: how its parent holds it: 0 bare (or AttrMap), 1 inside a Padding, 2 inside a WidgetDisable *)
   n_sel : bool;             (* leaf: selectable() *)
   n_keys : list (list Z);   (* leaf: keys it handles (returns None for) *)
   n_c : MonitoredList.state;           (* Pile/Columns/GridFlow contents, ListBox walker: child ids + focus *)
@@ -63,19 +64,19 @@ Record node := Node {
 }.
 
 Definition set_c (n : node) (c : MonitoredList.state) : node :=
-  Node (nk n) (n_wd n) (n_box n) (n_ht n) (n_wt n) (n_sel n) (n_keys n) c (n_selc n) (n_pref n) (n_dv n) (n_cw n) (n_vs n)
+  Node (nk n) (n_wd n) (n_box n) (n_ht n) (n_wt n) (n_deco n) (n_sel n) (n_keys n) c (n_selc n) (n_pref n) (n_dv n) (n_cw n) (n_vs n)
        (n_a n) (n_b n) (n_d n) (n_part n) (n_pend n) (n_vpend n).
 Definition set_selc (n : node) (b : bool) : node :=
-  Node (nk n) (n_wd n) (n_box n) (n_ht n) (n_wt n) (n_sel n) (n_keys n) (n_c n) b (n_pref n) (n_dv n) (n_cw n) (n_vs n)
+  Node (nk n) (n_wd n) (n_box n) (n_ht n) (n_wt n) (n_deco n) (n_sel n) (n_keys n) (n_c n) b (n_pref n) (n_dv n) (n_cw n) (n_vs n)
        (n_a n) (n_b n) (n_d n) (n_part n) (n_pend n) (n_vpend n).
 Definition set_pref (n : node) (p : pcol) : node :=
-  Node (nk n) (n_wd n) (n_box n) (n_ht n) (n_wt n) (n_sel n) (n_keys n) (n_c n) (n_selc n) p (n_dv n) (n_cw n) (n_vs n)
+  Node (nk n) (n_wd n) (n_box n) (n_ht n) (n_wt n) (n_deco n) (n_sel n) (n_keys n) (n_c n) (n_selc n) p (n_dv n) (n_cw n) (n_vs n)
        (n_a n) (n_b n) (n_d n) (n_part n) (n_pend n) (n_vpend n).
 Definition set_parts (n : node) (a : Z) (b d : oz) (part : Z) : node :=
-  Node (nk n) (n_wd n) (n_box n) (n_ht n) (n_wt n) (n_sel n) (n_keys n) (n_c n) (n_selc n) (n_pref n) (n_dv n) (n_cw n) (n_vs n)
+  Node (nk n) (n_wd n) (n_box n) (n_ht n) (n_wt n) (n_deco n) (n_sel n) (n_keys n) (n_c n) (n_selc n) (n_pref n) (n_dv n) (n_cw n) (n_vs n)
        a b d part (n_pend n) (n_vpend n).
 Definition set_pend (n : node) (p : pend) (v : bool) : node :=
-  Node (nk n) (n_wd n) (n_box n) (n_ht n) (n_wt n) (n_sel n) (n_keys n) (n_c n) (n_selc n) (n_pref n) (n_dv n) (n_cw n) (n_vs n)
+  Node (nk n) (n_wd n) (n_box n) (n_ht n) (n_wt n) (n_deco n) (n_sel n) (n_keys n) (n_c n) (n_selc n) (n_pref n) (n_dv n) (n_cw n) (n_vs n)
        (n_a n) (n_b n) (n_d n) (n_part n) p v.
 
 Definition heap := list node.
@@ -118,11 +119,23 @@ Definition nfocus (n : node) : Z := MonitoredList.focus_raw (n_c n).
 Definition is_empty (n : node) : bool := match items n with [] => true | _ => false end.
 Definition kind_at (h : heap) (id : Z) : option kind := match getn h id with Some n => Some (nk n) | None => None end.
 (* hasattr(w, "move_cursor_to_coords") = hasattr(w, "get_pref_col") *)
+(* decorations between a widget and its parent (AttrMap is transparent and not represented):
+   WidgetDisable: selectable() is False, keys and mouse events stop there, the inside is rendered without focus, and it has
+   none of the cursor methods; Padding(w) (left = right = 0): passes everything on, clamps the column of
+   move_cursor_to_coords into its width.  A WidgetDisable anywhere in the nesting wins. *)
+Definition is_dis (n : node) : bool := n_deco n =? 2.
+Definition is_pad (n : node) : bool := n_deco n =? 1.
 Definition has_mc (h : heap) (id : Z) : bool :=
-  match kind_at h id with Some KPile | Some KCols | Some KGrid => true | _ => false end.
+  match getn h id with
+  | Some n => negb (is_dis n) && match nk n with KPile | KCols | KGrid => true | _ => false end
+  | None => false
+  end.
 (* hasattr(w, "get_cursor_coords") *)
 Definition has_gcc (h : heap) (id : Z) : bool :=
-  match kind_at h id with Some KLeaf | None => false | _ => true end.
+  match getn h id with
+  | Some n => negb (is_dis n) && match nk n with KLeaf => false | _ => true end
+  | None => false
+  end.
 (* the widget [.focus] reports *)
 Definition focus_child (h : heap) (id : Z) : option Z :=
   match getn h id with
@@ -155,21 +168,30 @@ Definition is_horiz (c : Z) : bool := (c =? C_LEFT) || (c =? C_RIGHT).
 Definition handles (n : node) (k : list Z) : bool := existsb (key_eqb k) (n_keys n).
 
 (* ---------- selectable() ---------- *)
+(* the widget's own selectable(), given the selectable() of the widgets it holds *)
+Definition sel_node (selr : Z -> bool) (n : node) : bool :=
+  match nk n with
+  | KLeaf => n_sel n
+  | KPile | KCols => n_selc n                       (* the cache, recomputed by _contents_modified only *)
+  | KGrid => existsb selr (items n)                 (* GridFlow.selectable(): computed from contents *)
+  | KOvl => selr (n_a n)
+  | KFrame | KLBox => true
+  end.
+(* selectable() of the widget as its parent holds it *)
 Fixpoint sel (fuel : nat) (h : heap) (id : Z) : bool :=
   match fuel with
   | O => false
   | S f =>
     match getn h id with
     | None => false
-    | Some n =>
-      match nk n with
-      | KLeaf => n_sel n
-      | KPile | KCols => n_selc n                       (* the cache, recomputed by _contents_modified only *)
-      | KGrid => existsb (sel f h) (items n)            (* GridFlow.selectable(): computed from contents *)
-      | KOvl => sel f h (n_a n)
-      | KFrame | KLBox => true
-      end
+    | Some n => if is_dis n then false else sel_node (sel f h) n
     end
+  end.
+(* selectable() of the widget itself (what widget.selectable() answers, whatever it is wrapped in) *)
+Definition sel_own (fuel : nat) (h : heap) (id : Z) : bool :=
+  match fuel, getn h id with
+  | S f, Some n => sel_node (sel f h) n
+  | _, _ => false
   end.
 
 (* ---------- rows (flow) / heights ---------- *)
@@ -429,11 +451,17 @@ Fixpoint pile_row_hit (l : list Z) (hs : list Z) (j wrow row : Z) : option (Z * 
   | _, _ => None
   end.
 
-Fixpoint mc (fuel : nat) (id : Z) (col : pcol) (row : Z) : M bool :=
+Definition pad_clamp (n : node) (col : pcol) : pcol :=
+  if is_pad n then
+    match col with PInt x => PInt (if x <? 0 then 0 else if n_wd n <=? x then n_wd n - 1 else x) | o => o end
+  else col.
+
+Fixpoint mc (fuel : nat) (id : Z) (col0 : pcol) (row : Z) : M bool :=
   match fuel with
   | O => raise EFuel
   | S f =>
     n <- rd id ;;
+    let col := pad_clamp n col0 in                        (* Padding.move_cursor_to_coords *)
     match nk n with
     | KPile =>                                            (* Pile.move_cursor_to_coords *)
         w_pref id col ;;;
@@ -601,6 +629,7 @@ Fixpoint kp (fuel : nat) (id : Z) (key : list Z) : M kres :=
   | O => raise EFuel
   | S f =>
     n <- rd id ;;
+    if is_dis n then unhandled key else                   (* WidgetDisable: Widget.keypress returns the key *)
     match nk n with
     | KLeaf => ret (if handles n key then None else Some key, [id])
     | KPile =>                                            (* Pile.keypress *)
@@ -704,6 +733,7 @@ Fixpoint me (fuel : nat) (id : Z) (route : list Z) (focus : bool) : M (list (Z *
   | O => raise EFuel
   | S f =>
     n <- rd id ;;
+    if is_dis n then ret [] else                          (* WidgetDisable: Widget.mouse_event returns False *)
     match nk n, route with
     | KLeaf, _ => ret [(id, focus)]
     | _, [] => raise EBad
@@ -772,11 +802,12 @@ Definition truthy (h : heap) (c : Z) : bool :=
   | None => false
   end.
 
-Fixpoint rn (fuel : nat) (id : Z) (focus : bool) : M (list Z) :=
+Fixpoint rn (fuel : nat) (id : Z) (focus0 : bool) : M (list Z) :=
   match fuel with
   | O => raise EFuel
   | S f =>
     n <- rd id ;;
+    let focus := focus0 && negb (is_dis n) in             (* WidgetDisable.render: the inside is rendered with focus=False *)
     match nk n with
     | KLeaf => ret (if focus then [id] else [])
     | KPile => h <- get_heap ;; rn_list (rn f) (fun j => 0 <? height_at f h n j) (items n) 0 (nfocus n) focus
@@ -901,7 +932,7 @@ Definition del_part (id : Z) (part : Z) : M unit :=
 
 (* ---------- construction ---------- *)
 Definition blank (k : kind) (wd : Z) (box : bool) (ht : Z) : node :=
-  Node k wd box ht 0 false [] (MonitoredList.St [] 0) false PNone 0 0 0 0 None None 100 PendNone false.
+  Node k wd box ht 0 0 false [] (MonitoredList.St [] 0) false PNone 0 0 0 0 None None 100 PendNone false.
 
 Fixpoint first_sel (fuel : nat) (h : heap) (l : list Z) (j : Z) : oz :=
   match l with [] => None | c :: r => if sel fuel h c then Some j else first_sel fuel h r (j + 1) end.
@@ -920,28 +951,28 @@ Definition init_grid (fuel : nat) (h : heap) (ch : list Z) (f : oz) : MonitoredL
             | None => 0 end).
 
 Inductive spec :=
-  | SLeaf (wd : Z) (box : bool) (ht wt : Z) (sl : bool) (keys : list (list Z))
-  | SList (k : kind) (wd : Z) (box : bool) (ht wt : Z) (f : oz) (ch : list Z) (dv cw vs : Z)
-  | SFrame (wd : Z) (box : bool) (ht wt : Z) (body : Z) (hd ft : oz) (part : Z)
-  | SOvl (wd : Z) (box : bool) (ht wt : Z) (top bot : Z).
+  | SLeaf (wd : Z) (box : bool) (ht wt dc : Z) (sl : bool) (keys : list (list Z))
+  | SList (k : kind) (wd : Z) (box : bool) (ht wt dc : Z) (f : oz) (ch : list Z) (dv cw vs : Z)
+  | SFrame (wd : Z) (box : bool) (ht wt dc : Z) (body : Z) (hd ft : oz) (part : Z)
+  | SOvl (wd : Z) (box : bool) (ht wt dc : Z) (top bot : Z).
 
 Definition construct (fuel : nat) (h : heap) (s : spec) : node :=
   match s with
-  | SLeaf wd box ht wt sl keys =>
-      Node KLeaf wd box ht wt sl keys (MonitoredList.St [] 0) false PNone 0 0 0 0 None None 100 PendNone false
-  | SList k wd box ht wt f ch dv cw vs =>
+  | SLeaf wd box ht wt dc sl keys =>
+      Node KLeaf wd box ht wt dc sl keys (MonitoredList.St [] 0) false PNone 0 0 0 0 None None 100 PendNone false
+  | SList k wd box ht wt dc f ch dv cw vs =>
       match k with
-      | KPile => Node KPile wd box ht wt false [] (init_list fuel h ch f) (existsb (sel fuel h) ch) (PInt 0) 0 0 0 0 None None 100 PendNone false
-      | KCols => Node KCols wd box ht wt false [] (init_list fuel h ch f) (existsb (sel fuel h) ch) PNone dv 0 0 0 None None 100 PendNone false
-      | KGrid => Node KGrid wd box ht wt false [] (init_grid fuel h ch f) false PNone dv cw vs 0 None None 100 PendNone false
-      | _ => Node KLBox wd box ht wt false []
+      | KPile => Node KPile wd box ht wt dc false [] (init_list fuel h ch f) (existsb (sel fuel h) ch) (PInt 0) 0 0 0 0 None None 100 PendNone false
+      | KCols => Node KCols wd box ht wt dc false [] (init_list fuel h ch f) (existsb (sel fuel h) ch) PNone dv 0 0 0 None None 100 PendNone false
+      | KGrid => Node KGrid wd box ht wt dc false [] (init_grid fuel h ch f) false PNone dv cw vs 0 None None 100 PendNone false
+      | _ => Node KLBox wd box ht wt dc false []
                   (match f, ch with Some j, _ :: _ => st_apply (MonitoredList.St ch 0) (MonitoredList.SetFocus j) | _, _ => MonitoredList.St ch 0 end)
                   false PLeft 0 cw 0 0 None None 100 PendFirst false
       end
-  | SFrame wd box ht wt body hd ft part =>
-      Node KFrame wd box ht wt false [] (MonitoredList.St [] 0) false PNone 0 0 0 body hd ft part PendNone false
-  | SOvl wd box ht wt top bot =>
-      Node KOvl wd box ht wt false [] (MonitoredList.St [] 0) false PNone 0 0 0 top (Some bot) None 100 PendNone false
+  | SFrame wd box ht wt dc body hd ft part =>
+      Node KFrame wd box ht wt dc false [] (MonitoredList.St [] 0) false PNone 0 0 0 body hd ft part PendNone false
+  | SOvl wd box ht wt dc top bot =>
+      Node KOvl wd box ht wt dc false [] (MonitoredList.St [] 0) false PNone 0 0 0 top (Some bot) None 100 PendNone false
   end.
 Definition build (fuel : nat) (specs : list spec) : heap :=
   fold_left (fun h s => h ++ [construct fuel h s]) specs [].
@@ -1067,7 +1098,7 @@ Fixpoint dump_state (h : heap) (all : heap) (id : Z) : list (list Z) :=
   | n :: r =>
       (match nk n with
        | KLeaf => []
-       | _ => [[id; (match get_pos h id with ROk p => p | RErr _ => -1 end); enc_bool (sel FUEL h id)]]
+       | _ => [[id; (match get_pos h id with ROk p => p | RErr _ => -1 end); enc_bool (sel_own FUEL h id)]]
        end) ++ dump_state h r (id + 1)
   end.
 
@@ -1108,19 +1139,19 @@ Definition dec_kind (z : Z) : kind :=
 
 Definition dec_spec (l : list Z) : option (spec * list Z) :=
   match l with
-  | k :: wd :: box :: ht :: wt :: r =>
+  | k :: wd :: box :: ht :: wt :: dc :: r =>
       if k =? 0 then
         match r with
         | sl :: nk :: r1 =>
             match dec_keys (Z.to_nat nk) r1 with
-            | Some (ks, r2) => Some (SLeaf wd (dec_bool box) ht wt (dec_bool sl) ks, r2)
+            | Some (ks, r2) => Some (SLeaf wd (dec_bool box) ht wt dc (dec_bool sl) ks, r2)
             | None => None end
         | _ => None end
       else if (k =? 1) || (k =? 2) || (k =? 3) || (k =? 6) then
         match dec_oz r with
         | Some (f, dv :: cw :: vs :: r1) =>
             match dec_list r1 with
-            | Some (ch, r2) => Some (SList (dec_kind k) wd (dec_bool box) ht wt f ch dv cw vs, r2)
+            | Some (ch, r2) => Some (SList (dec_kind k) wd (dec_bool box) ht wt dc f ch dv cw vs, r2)
             | None => None end
         | _ => None end
       else if k =? 4 then
@@ -1128,13 +1159,13 @@ Definition dec_spec (l : list Z) : option (spec * list Z) :=
         | body :: r1 =>
             match dec_oz r1 with
             | Some (hd, r2) => match dec_oz r2 with
-                               | Some (ft, part :: r3) => Some (SFrame wd (dec_bool box) ht wt body hd ft part, r3)
+                               | Some (ft, part :: r3) => Some (SFrame wd (dec_bool box) ht wt dc body hd ft part, r3)
                                | _ => None end
             | None => None end
         | _ => None end
       else if k =? 5 then
         match r with
-        | top :: bot :: r1 => Some (SOvl wd (dec_bool box) ht wt top bot, r1)
+        | top :: bot :: r1 => Some (SOvl wd (dec_bool box) ht wt dc top bot, r1)
         | _ => None end
       else None
   | _ => None
